@@ -13,9 +13,20 @@ Equivalences used in the statements (the documented "≈"):
 -/
 import Martian.Invocation
 import Proofs.Invocation
+import Gen.Facts
 
 namespace Props.C16
 open Martian.Invocation
+
+/-- Regenerated obligation: the JSON key `convertToExp` reads a split operand
+from (struct tag) and `SplitExp.encodeJSON` writes it under are the model's
+`splitKey`. -/
+theorem facts_split_key : Gen.invocationSplitKey = splitKey := by decide
+
+/-- Regenerated obligation: `FloatExp.format` and `FloatExp.EncodeJSON` print
+with `strconv.AppendFloat(_, v, 'g', -1, 64)` — the rule `Flt.printsAsInt`
+models (shortest digits, `%e` iff exponent < -4 or ≥ 6). -/
+theorem facts_float_format : Gen.floatExpFormat = [(0x67, -1, 64), (0x67, -1, 64)] := by decide
 
 /-- The only thing normalisation does to a scalar: a float that prints in
 integer syntax becomes the integer with the same value `± mant·10^exp`. -/
@@ -243,6 +254,16 @@ example : ∃ bs, buildCall [(kX, ⟨.scalar, 0, 0⟩), (kY, ⟨.struct innerT, 
     { args := [(kX, .obj (.cons splitKey (.arr (.cons (.lit (.int 1)) .nil)) .nil))],
       splitargs := [kX] } = some bs ∧ (dataOf bs).splitargs = [kX] :=
   ⟨[(kX, .split (.arr (.cons (.lit (.int 1)) .nil))), (kY, .plain (.lit .null))], by rfl, by rfl⟩
+
+/-- `split_map_over_struct`'s hypothesis is satisfiable: `x = split {"k": {a: 1}}` for `INNER x` -/
+example : buildBinding true ⟨.struct innerT, 0, 0⟩
+    (.obj (.cons splitKey (.obj (.cons kK (.obj (.cons kA (.lit (.int 1)) .nil)) .nil)) .nil))
+    = some (.split (.map false (.cons kK (.map true (.cons kA (.lit (.int 1)) .nil)) .nil))) := by rfl
+/-- `binding_roundtrip`'s hypothesis for a split operand: `int x` split over `[1, 2]` and over `{"k": 1}` -/
+example : wt (collectionType ⟨.scalar, 0, 0⟩ (.arr (.cons (.lit (.int 1)) .nil))).base
+    (collectionType ⟨.scalar, 0, 0⟩ (.arr (.cons (.lit (.int 1)) .nil))).arrayDim
+    (collectionType ⟨.scalar, 0, 0⟩ (.arr (.cons (.lit (.int 1)) .nil))).mapDim
+    (.arr (.cons (.lit (.int 1)) .nil)) = true := by decide
 
 /-- Negative witness (finding C16-N3): `{"split": []}` is a legal split
 argument for `BuildCallAst`, but `split []` is not expressible in MRO text. -/
